@@ -77,9 +77,12 @@ def _call(f):
 def _gen_2d(rng, kind):
     """list of (2x2 arrays): end points of line fractures"""
     n = rng.choice((0, 1, 1, 2, 3, 4, 6))
-    scale = {"dyadic": 1.0, "decimal": 1.0, "small": 1e-3, "large": 1e6}[kind]
+    scale = {"dyadic": 1.0, "decimal": 1.0, "small": 1e-3, "large": 1e6, "far": 1.0}[kind]
 
     def coord():
+        if kind == "far":
+            # a network far from the origin relative to its size (UTM-like coordinates): end points of different fractures 1/2 .. 8 apart at 1e5
+            return 100000.0 + rng.randint(0, 16) / 2.0
         if kind == "dyadic":
             return rng.randint(-16, 16) / 8.0
         if kind == "decimal":
@@ -95,6 +98,9 @@ def _gen_2d(rng, kind):
                 pts.append(rng.choice(pool))  # shared end point (exactly equal coordinates)
             else:
                 pts.append((coord(), coord()))
+        if kind == "far" and max(abs(pts[0][0] - pts[1][0]), abs(pts[0][1] - pts[1][1])) < 4:
+            # LineFracture itself rejects end points closer than 1e-5 * |coordinate| as 'not distinct': keep each fracture clearly longer
+            pts[1] = (pts[0][0] + 4.0, pts[0][1] + 6.5)
         pool += pts
         fr.append(np.array([[pts[0][0], pts[1][0]], [pts[0][1], pts[1][1]]], dtype=float))
     return fr
@@ -336,14 +342,14 @@ def run(rep):
         with rep.sweep(
             "2-d networks through csv",
             rule="seeded networks of 0-6 line fractures; coordinate families dyadic k/8, decimal (0.1, 1/3, ...), small (1e-3) and large "
-                 "(1e6) magnitudes; 30 % of the end points re-use an earlier end point exactly; x {header, no header} x {domain given to the "
+                 "(1e6) magnitudes, and far (1e5 + k/8: a network far from the origin relative to its size); 30 % of the end points re-use an earlier end point exactly; x {header, no header} x {domain given to the "
                  "reader, none} x {return_frac_id}; inputs violating the requires are skipped; nontrivial = at least 2 fractures; distinct by "
                  "(end points, options)",
             bound="%d seeded networks x 8 option combinations (subset)" % (150 if quick else 3000),
             exhaustive=False,
         ) as sw:
             for it in range(150 if quick else 3000):
-                kind = ("dyadic", "decimal", "small", "large")[it % 4]
+                kind = ("dyadic", "decimal", "small", "large", "far")[it % 5]
                 fr = _gen_2d(rng, kind)
                 for with_header, use_dom, rid in ((True, False, False), (False, True, True)) if it % 3 else ((True, True, False), (False, False, True), (True, False, True)):
                     box = None
